@@ -61,6 +61,17 @@ std::map<pMPI::JobId, pMPI::WorkerId> mpi_skel<WrapType>::run(const boost::mpi::
         std::sort(job_order.begin(), job_order.end(), comp1);
         disp.reset(new pMPI::MPIMaster(comm,job_order,true));
     };
+#ifdef POMEROL_VERIF
+    // Verification hooks: block-scope declarations of functions of namespace pMPI that are defined in
+    // src/mpi_dispatcher/mpi_dispatcher.cpp (inert unless POMEROL_VERIF_TRACE_DIR / POMEROL_VERIF_DELAY_SEED and
+    // POMEROL_VERIF_DELAY_MAX_US are set). They are placed below the BOOST_LOCAL_FUNCTION lines so that no
+    // __LINE__-derived identifier changes: with the guard off the preprocessed text is identical.
+#define POMEROL_VERIF_DISPATCH_HOOK 1
+    void verif_trace(const char* fmt, ...);
+    void verif_round_begin(const boost::mpi::communicator& comm, int njobs, int include_boss);
+    void verif_delay();
+    verif_round_begin(comm, int(parts.size()), 1);
+#endif
 
     comm.barrier();
 
@@ -72,11 +83,20 @@ std::map<pMPI::JobId, pMPI::WorkerId> mpi_skel<WrapType>::run(const boost::mpi::
             JobId p = worker.current_job();
             if (VerboseOutput) std::cout << "["<<p+1<<"/"<<parts.size()<< "] P" << comm.rank() 
                                          << " : part " << p << " [" << parts[p].complexity << "] run;" << std::endl;
+#ifdef POMEROL_VERIF
+            verif_delay();
+#endif
             parts[p].run(); 
+#ifdef POMEROL_VERIF
+            verif_trace("R %d", int(p));
+#endif
             worker.report_job_done(); 
         };
         if (rank == ROOT) disp->check_workers(); // check if there are free workers 
     };
+#ifdef POMEROL_VERIF
+    verif_trace("E");
+#endif
     // at this moment all communication is finished
     //comm.barrier();
     comm.barrier();
